@@ -32,7 +32,8 @@
  * group runs in a forked worker process (MPI_Init_thread + parsec_init with the group's
  * thread count and "--mca mca_sched/dtd_window_size/dtd_threshold_size" values), one
  * fresh DTD taskpool and data collection per case.  A hang or a crash of the runtime
- * costs one line: the worker is replaced for the remaining cases of the group.  Side
+ * costs one line: the worker is replaced for the remaining cases of the group (after 3 hangs
+ * the time-out drops to 2.5 s, after 12 the remaining cases are reported as not run).  Side
  * statistics (max concurrent readers ...) go to stderr as "#stat" lines. */
 #include "parsec/runtime.h"
 #include "parsec/data_dist/matrix/two_dim_rectangle_cyclic.h"
@@ -319,9 +320,10 @@ static char **lines; static char **result; static int ncases;
 static int nhangs;
 static int run_group(const int *idx, int n, int tmo_ms) {
     int pfd[2];
-    /* after a few hangs every further one is given less time: a broken runtime must not
-     * stretch the run to (number of cases) x (time-out) */
-    if (nhangs >= 3) tmo_ms = tmo_ms / 4 > 3000 ? tmo_ms / 4 : (tmo_ms < 3000 ? tmo_ms : 3000);
+    /* after a few hangs every further one is given less time, and after many the remaining
+     * cases are not run: a broken runtime must not stretch the run to (cases) x (time-out) */
+    if (nhangs >= 12) { result[idx[0]] = strdup("<not run: 12 cases hung before>"); return 1; }
+    if (nhangs >= 3) tmo_ms = tmo_ms < 2500 ? tmo_ms : 2500;
     if (pipe(pfd)) { result[idx[0]] = strdup("<pipe failed>"); return 1; }
     fflush(stdout); fflush(stderr);
     pid_t pid = fork();
